@@ -33,6 +33,7 @@ type c14Amino struct {
 }
 
 func runC14(r *core.Run) {
+	firstCallClause(r, "sequtil.Translate", "sequtil.AminoName")
 	defer racePass(r, "race-sequtil", "ReverseComplement(String), DNATo2Bit/From2Bit, Translate(ReadingFrames), CanonicalSubsequences, AminoName on one shared src")
 
 	core.Clause(r, "codon-table", core.Opts{Rule: "all 64 codons x all 8 upper/lower case patterns against the NCBI table-1 string; non-trivial = all"},
@@ -154,6 +155,41 @@ func runC14(r *core.Run) {
 			}
 			f := sequtil.TranslateReadingFrames(in)
 			return string(f[0]) + "|" + string(f[1]) + "|" + string(f[2])
+		})
+
+	core.Clause(r, "length-and-alphabet-together", core.Opts{Rule: "the two panic conditions at once: every string of length 0..6 over {A, c, G, LF, CR, blank, N, NUL}, and ACG / ACGTGA followed by every 1-byte and every 2-byte suffix: Translate (and TranslateReadingFrames where it must) panics iff the length is not a multiple of 3 or some byte is outside aAcCgGtT, and gives the reference translation otherwise; non-trivial = all"},
+		func(emit func(c14Bad) bool) {
+			if !enum.Strings("AcG\n\r N\x00", 6, func(s string) bool { return emit(c14Bad{core.S(s)}) }) {
+				return
+			}
+			for _, pre := range []string{"ACG", "ACGTGA"} {
+				for a := 0; a < 256; a++ {
+					if !emit(c14Bad{core.S(pre + string([]byte{byte(a)}))}) {
+						return
+					}
+					for b := 0; b < 256; b++ {
+						if !emit(c14Bad{core.S(pre + string([]byte{byte(a), byte(b)}))}) {
+							return
+						}
+					}
+				}
+			}
+		},
+		func(c c14Bad) core.Outcome {
+			src := c.Seq.B()
+			want, ok := ref.Translate(src)
+			var got []byte
+			p := catch(func() { got = sequtil.Translate(nil, src) })
+			if ok {
+				if p != "" || !bytes.Equal(got, want) {
+					return core.Failf("Translate(%q) = %q (panic %q), want %q", src, got, p, want)
+				}
+				return core.OK("accepted", true)
+			}
+			if p == "" {
+				return core.Failf("Translate(%q) did not panic (returned %q) although the length is %d and/or a byte is outside aAcCgGtT", src, got, len(src))
+			}
+			return core.OK("panics", true)
 		})
 
 	core.Clause(r, "dst-shares-memory-with-src", core.Opts{Rule: dstAliasRule},
